@@ -53,12 +53,12 @@ func BuildOverlay(repo, harnessDir string) (map[string][]byte, error) {
 // Load type-checks and builds SSA for the given package patterns (relative to repo).
 func Load(repo string, overlay map[string][]byte, patterns []string) (*Program, error) {
 	cfg := &packages.Config{
-		Mode:    packages.LoadAllSyntax,
-		Dir:     repo,
-		Overlay: overlay,
+		Mode:       packages.LoadAllSyntax,
+		Dir:        repo,
+		Overlay:    overlay,
 		BuildFlags: []string{"-tags=verifsym"},
-		Env:     append(os.Environ(), "GOFLAGS=-mod=mod", "GOPROXY=off", "GOSUMDB=off", "GOTOOLCHAIN=local", "CGO_ENABLED=0"),
-		Tests:   false,
+		Env:        append(os.Environ(), "GOFLAGS=-mod=mod", "GOPROXY=off", "GOSUMDB=off", "GOTOOLCHAIN=local", "CGO_ENABLED=0"),
+		Tests:      false,
 	}
 	pkgs, err := packages.Load(cfg, patterns...)
 	if err != nil {
